@@ -2,6 +2,9 @@ import NitroVerif.Lemmas.JsTemplate
 import NitroVerif.Lemmas.GqlString
 import NitroVerif.Lemmas.Strip
 import NitroVerif.Lemmas.GqlTokens
+import NitroVerif.Lemmas.PrinterWalk
+import NitroVerif.Lemmas.BlockString
+import NitroVerif.Lemmas.ValueTokens
 /-!
 # C16 — the emitted server schema string re-parses to the schema that was checked; parse ∘ print = id
 
@@ -59,6 +62,54 @@ theorem printQuoted_no_cr (s : List Char) : NoCR (printQuoted s) := by
       · exact ih hc
   · subst hc; decide
 
+/-! ### 1b. the writer's real chunking
+
+`JsStringWriter` keeps its `dollar_flag` per `write` call. `safeOps` (Lemmas/JsChunks.lean) is the exact condition on a
+sequence of writer operations: no chunk starts with `{` directly after a `$` written by an EARLIER chunk, no chunk holds
+a CR. Indentation, newlines and any split of the text into chunks are covered. -/
+
+/-- For EVERY safe sequence of writer operations (any chunking, any indentation): cooking everything
+    `JsStringWriter` wrote gives exactly the text `JustWriter` writes for the same operations. -/
+theorem template_roundtrip_chunks (ops : List WOp) (h : safeOps false ops = true) :
+    cook (runOps true {} ops) = some (justText ops) :=
+  run_runOps ops {} false (by simp) h
+
+example : safeOps false [.write "a$".toList, .indent, .write "b{\n${`".toList, .write "{".toList] = true := by decide
+
+/-- The condition is necessary: `$` at the end of one chunk and `{` at the start of the next are written `${`. -/
+theorem template_chunks_counterexample : cook (runOps true {} [.write ['$'], .write ['{']]) = none := by decide
+
+/-- The GraphQL printer only produces safe chunk sequences: for EVERY type-system document whose printed names,
+    numbers and variable names hold no CR, do not end in `$` (variable names: are non-empty and do not start with
+    `{`) — true of every GraphQL Name — the operations handed to the writer are safe. The printer's own texts
+    (punctuators, layout) and its string literals are covered unconditionally by a walk over all printing functions. -/
+theorem printer_chunks_safe_ts (d : TsDoc) (hn : ∀ t ∈ printTsDoc d, t.nameOK = true) :
+    safeOps false (ops (printTsDoc d)) = true :=
+  safe_of_names _ (fixed_tsDoc d) hn
+
+/-- the same for every executable document (operations, fragments, `#import` lines) -/
+theorem printer_chunks_safe_op (d : Doc) (hn : ∀ t ∈ printDoc d, t.nameOK = true) :
+    safeOps false (ops (printDoc d)) = true :=
+  safe_of_names _ (fixed_doc d) hn
+
+/-- End to end for the template layer: for EVERY type-system document with such names, the cooked value of the
+    characters between the back-ticks of the `serverGraphqlOutput` module is a line feed followed by exactly the
+    GraphQL text the printer writes (into a `JustWriter`) for the document. -/
+theorem server_template_cooks (d : TsDoc) (hn : ∀ t ∈ printTsDoc d, t.nameOK = true) :
+    cook ('\n' :: runOps true {} (ops (printTsDoc d))) = some ('\n' :: text (printTsDoc d)) := by
+  have h := template_roundtrip_chunks _ (printer_chunks_safe_ts d hn)
+  unfold cook at h ⊢
+  simp only [Cook.run, Cook.step, Cook.stepNormal]
+  simp only [show ('\n' = '`') = False by decide, show ('\n' = '\\') = False by decide,
+    show ('\n' = '$') = False by decide, show ('\n' = '\r') = False by decide, if_false, h]
+  rfl
+
+/-- a small document with a variable, used to show the hypotheses are satisfiable -/
+def exampleDoc : TsDoc :=
+  [.typeDef { kind := .object, name := "Q", fields := [{ name := "f", ty := .named "Int" {}, dirs := [{ name := "d", args := [("a", {}, .var "v" {})] }] }] }]
+
+example : (printTsDoc exampleDoc).all Tok.nameOK = true := by decide
+
 /-! ## 2. string literal layer -/
 
 /-
@@ -91,6 +142,60 @@ theorem print_string_roundtrip_counterexample :
 /-- (b) a leading blank line is lost: the literal written for "\na" (block form) denotes "a" -/
 theorem print_string_block_counterexample :
     decodeStringLiteral (printString ['\n', 'a']) = some ['a'] := by decide
+
+/-! ### 2b. the block form -/
+
+/-- For EVERY string the code prints in the block form: the printed text is exactly one block-string token, and its
+    value is `BlockStringValue` of the string itself (every `"""` inside is escaped and read back, the token ends
+    exactly at the closing `"""`). -/
+theorem print_block_lexes (s : List Char) (h : useBlock s = true) :
+    decodeStringLiteral (printString s) = some (blockStringValue s) := by
+  have hcan : canBlock s = true := by
+    simp only [useBlock, Bool.decide_and, Bool.and_eq_true, decide_eq_true_eq] at h; exact h.2
+  simp [canBlock] at hcan
+  obtain ⟨hq, hb, hall⟩ := hcan
+  have hend : endOK 0 s := by
+    unfold endOK; simp only [pending, if_true]; exact ⟨hq, hb⟩
+  have hsrc : ∀ c ∈ s, sourceChar c = true := by
+    intro c hc
+    rcases hall c hc with h1 | h1 | h1
+    · subst h1; decide
+    · subst h1; decide
+    · simp [isControl] at h1
+      simp [sourceChar]; omega
+  have hraw := blockRaw_escTriple s 0 (by omega) hend hsrc
+  simp only [List.replicate, List.nil_append] at hraw
+  unfold printString printBlock
+  simp only [h, if_true]
+  show decodeStringLiteral (dquote :: dquote :: dquote :: (escTriple 0 s ++ close3)) = _
+  simp [decodeStringLiteral, hraw]
+
+/-- The EXACT side condition for the block form: the printed literal denotes the string if and only if
+    `BlockStringValue` leaves the string unchanged. -/
+theorem print_block_roundtrip_iff (s : List Char) (h : useBlock s = true) :
+    decodeStringLiteral (printString s) = some s ↔ blockStringValue s = s := by
+  rw [print_block_lexes s h]
+  exact ⟨fun e => Option.some.inj e, fun e => by rw [e]⟩
+
+/-- A structural sufficient condition: first and last line not blank, no common indentation of the continuation
+    lines (`blockFaithful`, e.g. "multi\nline", "a\n\nb  c\n\tq\nz"). -/
+theorem print_block_roundtrip (s : List Char) (h : useBlock s = true) (hf : blockFaithful s = true) :
+    decodeStringLiteral (printString s) = some s := by
+  have hcan : canBlock s = true := by
+    simp only [useBlock, Bool.decide_and, Bool.and_eq_true, decide_eq_true_eq] at h; exact h.2
+  exact (print_block_roundtrip_iff s h).mpr (blockStringValue_faithful s (canBlock_no_cr s hcan) hf)
+
+example : useBlock "multi\nline \"q\" \\ \"\"\" x".toList = true ∧ blockFaithful "multi\nline \"q\" \\ \"\"\" x".toList = true := by
+  decide
+
+/-- `print_string` as a whole, with the exact side conditions of its two forms -/
+theorem print_string_roundtrip_exact (s : List Char)
+    (h1 : useBlock s = false → ∀ c ∈ s, c ≠ dquote) (h2 : useBlock s = true → blockStringValue s = s) :
+    decodeStringLiteral (printString s) = some s := by
+  by_cases h : useBlock s = true
+  · exact (print_block_roundtrip_iff s h).mpr (h2 h)
+  · have h' : useBlock s = false := by simpa using h
+    exact print_string_roundtrip_partial s h' (h1 h')
 
 /-! ## 3. stripping layer -/
 
@@ -152,29 +257,80 @@ example : OnlyOnScalars nitroName
   simp only [List.mem_cons, List.mem_nil_iff, or_false] at hi
   rcases hi with rfl | rfl | rfl <;> decide
 
-/-
-OPEN — carried by K/O only
-  * `strip_model_exact`: the same statement for the model plugin's `transform_document_for_runtime_server`
-    (`removeModel d = stripDirective "model" d` when `@model` is applied on object types and their fields only).
-    K compares the real transform with `removeModel`, O compares the re-parsed server schema with
-    `stripDirective "model" (stripDirective "nitrogql_ts_type" checked)`.
--/
+/-- `@n` is applied on object type definitions and on their fields only (what the model plugin's `check_schema`
+    and the location list `OBJECT | FIELD_DEFINITION` leave possible in an accepted schema) -/
+def OnlyOnObjects (n : Name) (d : TsDoc) : Prop :=
+  ∀ i ∈ d, match i with
+    | .typeDef t =>
+      (t.kind = .object ∧ Strip.objectInnerClean n t = true) ∨
+      (t.kind ≠ .object ∧ Strip.typeInnerClean n t = true ∧ Strip.dirsClean n t.dirs = true)
+    | .typeExt t => Strip.typeInnerClean n t = true ∧ Strip.dirsClean n t.dirs = true
+    | .directiveDef dd => dd.args.all (Strip.ivClean n) = true
+    | .schemaDef s => Strip.dirsClean n s.dirs = true
+    | .schemaExt s => Strip.dirsClean n s.dirs = true
+
+/-- The model plugin's `transform_document_for_runtime_server` removes exactly `@model`: on every document in which
+    `@model` is applied on object types and object fields only, its result is the document without the definition
+    of the directive and without any application of it; everything else is kept, in order. -/
+theorem strip_model_exact (d : TsDoc) (h : OnlyOnObjects modelName d) :
+    removeModel d = Strip.stripDirective modelName d := by
+  unfold removeModel Strip.stripDirective
+  induction d with
+  | nil => rfl
+  | cons i is ih =>
+    have hi := h i (by simp)
+    have his : OnlyOnObjects modelName is := fun j hj => h j (by simp [hj])
+    have key : removeModelItem i = Strip.item modelName i := by
+      cases i with
+      | directiveDef dd =>
+        simp only at hi
+        simp only [removeModelItem, Strip.item, Strip.inputValues_clean _ _ hi]
+      | typeDef t =>
+        simp only at hi
+        rcases hi with ⟨hk, hin⟩ | ⟨hk, hin, hd⟩
+        · simp only [removeModelItem, Strip.item, hk, if_true, Strip.typeDef_object_clean _ _ hin]
+          rfl
+        · simp [removeModelItem, Strip.item, hk, Strip.typeDef_inner_clean _ _ hin, Strip.dirs_clean _ _ hd]
+      | typeExt t =>
+        simp only at hi
+        simp only [removeModelItem, Strip.item, Strip.typeDef_inner_clean _ _ hi.1, Strip.dirs_clean _ _ hi.2]
+      | schemaDef s =>
+        simp only at hi
+        simp only [removeModelItem, Strip.item, Strip.schemaDef, Strip.dirs_clean _ _ hi]
+      | schemaExt s =>
+        simp only at hi
+        simp only [removeModelItem, Strip.item, Strip.schemaDef, Strip.dirs_clean _ _ hi]
+    simp only [List.filterMap_cons, key, ih his]
+
+example : OnlyOnObjects modelName
+    [.typeDef { kind := .object, name := "User", dirs := [{ name := "model" }], fields := [{ name := "id", ty := .named "ID" {}, dirs := [{ name := "model" }, { name := "deprecated" }] }] },
+     .directiveDef { name := "model", locations := ["OBJECT", "FIELD_DEFINITION"] },
+     .typeDef { kind := .scalar, name := "Date" }] := by
+  intro i hi
+  simp only [List.mem_cons, List.mem_nil_iff, or_false] at hi
+  rcases hi with rfl | rfl | rfl <;> decide
+
+/-- composition as in generate.rs: `remove_builtins`, then the plugin -/
+theorem strip_both_exact (d : TsDoc) (h1 : OnlyOnScalars nitroName d)
+    (h2 : OnlyOnObjects modelName (Strip.stripDirective nitroName d)) :
+    removeModel (removeBuiltins d) = Strip.stripDirective modelName (Strip.stripDirective nitroName d) := by
+  rw [strip_exact d h1, strip_model_exact _ h2]
 
 /-! ## 4. token level: the Type sub-language -/
 
 /-- For EVERY type: the significant tokens the printer writes are the canonical token stream of the type. -/
-theorem print_tokens_type (t : GType) : (printType t).filterMap lex = GqlTokens.typeToks t := by
+theorem print_tokens_type (t : GType) : (printType t).flatMap lex = GqlTokens.typeToks t := by
   induction t with
   | named n p => rfl
-  | list t p ih => simp [printType, GqlTokens.typeToks, List.filterMap_append, lex, ih]
-  | nonNull t ih => simp [printType, GqlTokens.typeToks, List.filterMap_append, lex, ih]
+  | list t p ih => simp [printType, GqlTokens.typeToks, List.flatMap_append, lex, ih]
+  | nonNull t ih => simp [printType, GqlTokens.typeToks, List.flatMap_append, lex, ih]
 
 /-- parse ∘ print = id on the Type sub-language, for EVERY type the grammar can produce (arbitrary nesting of
     lists and non-null markers, arbitrary names): reading the printer's significant tokens with the
     specification's token parser gives back the type (positions erased), and consumes exactly its tokens. -/
 theorem C16_roundtrip_partial (t : GType) (hwf : GqlTokens.wfType t = true) (rest : List GqlTokens.LTok)
     (hrest : rest.head? ≠ some (.p "!")) :
-    GqlTokens.parseType (GqlTokens.depth t + 1) ((printType t).filterMap lex ++ rest) = some (t.erasePos, rest) := by
+    GqlTokens.parseType (GqlTokens.depth t + 1) ((printType t).flatMap lex ++ rest) = some (t.erasePos, rest) := by
   rw [print_tokens_type, parseType_typeToks t hwf rest _ (by omega)]
   split
   · rfl
@@ -190,20 +346,88 @@ example : GqlTokens.wfType (.nonNull (.list (.nonNull (.named "Int" {})) {})) = 
 /-- the well-formedness hypothesis is necessary: `Int!!` is printed for the (unparsable-from-text) tree
     non-null of non-null, and does not read back -/
 theorem C16_roundtrip_counterexample :
-    GqlTokens.parseType 3 ((printType (.nonNull (.nonNull (.named "Int" {})))).filterMap lex) ≠
+    GqlTokens.parseType 3 ((printType (.nonNull (.nonNull (.named "Int" {})))).flatMap lex) ≠
       some ((GType.nonNull (.nonNull (.named "Int" {}))).erasePos, []) := by decide
+
+/-! ## 5. token level: Value and Directive -/
+
+/-- For EVERY value (arbitrarily nested lists and input objects): the significant tokens the printer writes
+    (commas, spaces, newlines and indentation dropped) are the canonical token stream of the value. -/
+theorem print_tokens_value (v : Value) : (printValue v).flatMap lex = GqlTokens.valueToks v :=
+  toks_value v
+
+/-- For EVERY directive application: the significant tokens printed are `@`, the name and the canonical stream of
+    its arguments (one argument on one line, two or more one per line — layout only). -/
+theorem print_tokens_directive (d : Directive) : (printDirective d).flatMap lex = GqlTokens.directiveToks d := by
+  simp [printDirective, GqlTokens.directiveToks, lex, List.flatMap_append, toks_args]
+
+/-- parse ∘ print = id on the Value sub-language, for EVERY value the grammar can produce (enum values other than
+    `true` / `false` / `null`; arbitrary strings, numbers, names, nesting) and every continuation: the specification's
+    token parser reads the printer's significant tokens back to the value (positions erased) and consumes exactly them. -/
+theorem C16_roundtrip_value (v : Value) (hwf : GqlTokens.wfValue v = true) (rest : List GqlTokens.LTok) :
+    GqlTokens.parseValue (2 * v.size) ((printValue v).flatMap lex ++ rest) = some (v.erasePos, rest) := by
+  rw [print_tokens_value]
+  exact parse_value v hwf rest _ (Nat.le_refl _)
+
+example : GqlTokens.wfValue (.obj [("a", {}, .list [.int "1" {}, .str "s\"\n" {}, .enum "E" {}, .var "v" {}] {}), ("b", {}, .obj [] {})] {}) = true := by
+  decide
+
+/-- the hypothesis is necessary: the tree "enum value named true" is printed `true`, which reads back as a Boolean -/
+theorem C16_roundtrip_value_counterexample :
+    GqlTokens.parseValue 2 ((printValue (.enum "true" {})).flatMap lex) = some (.bool true Pos.none, []) := by
+  simp [printValue, lex, GqlTokens.parseValue, GqlTokens.nameValue]
+
+/-- parse ∘ print = id for directive applications: for EVERY directive whose argument values the grammar can produce,
+    followed by anything that is not `(`. -/
+theorem C16_roundtrip_directive (d : Directive) (hwf : GqlTokens.wfFields d.args = true) (rest : List GqlTokens.LTok)
+    (hrest : rest.head? ≠ some (.p "(")) :
+    GqlTokens.parseDirective (2 * Value.sizeFields d.args + 1) ((printDirective d).flatMap lex ++ rest) =
+      some (GqlTokens.eraseDirective d, rest) := by
+  rw [print_tokens_directive]
+  unfold GqlTokens.directiveToks GqlTokens.eraseDirective
+  cases hargs : d.args with
+  | nil =>
+    cases rest with
+    | nil => simp [GqlTokens.argsToks, GqlTokens.parseDirective, Value.erasePosFields]
+    | cons tok r =>
+      have : tok ≠ .p "(" := by intro h; subst h; simp at hrest
+      simp [GqlTokens.argsToks, GqlTokens.parseDirective, Value.erasePosFields, this]
+  | cons a as =>
+    rw [hargs] at hwf
+    have h := parse_fields ")" (a :: as) hwf rest (2 * Value.sizeFields (a :: as) + 1) (Nat.le_refl _)
+    obtain ⟨k, p, v⟩ := a
+    simp only [Value.erasePosFields] at h
+    simp [GqlTokens.argsToks, GqlTokens.parseDirective, h, Value.erasePosFields]
+
+/-! ## 6. token level: executable definitions (token streams; no parse-back theorem) -/
+
+/-- For EVERY selection (fields with aliases, arguments, directives and nested selection sets; fragment spreads;
+    inline fragments — arbitrary nesting): the significant tokens printed are the canonical token stream. -/
+theorem print_tokens_selection (s : Selection) : (printSelection s).flatMap lex = GqlTokens.selectionToks s :=
+  toks_selection s
+
+/-- For EVERY variable definition: `$name : Type`, then `= default` if there is one, then the directives — nothing
+    is dropped (the pinned code dropped the last two). -/
+theorem print_tokens_var_def (v : VarDef) : (printVarDef v).flatMap lex = GqlTokens.varDefToks v :=
+  toks_varDef v
+
+/-- For EVERY operation definition: kind, name, variable definitions, directives, selection set. -/
+theorem print_tokens_operation (o : OperationDef) : (printOperation o).flatMap lex = GqlTokens.operationToks o :=
+  toks_operation o
+
+/-- For EVERY fragment definition. -/
+theorem print_tokens_fragment (f : FragmentDef) : (printFragment f).flatMap lex = GqlTokens.fragmentToks f :=
+  toks_fragment f
 
 /-
 OPEN — carried by K/O only (never claimed as proved)
-  * `print_tokens` for Value, Directive, selections, definitions: "the significant tokens printed for A are the
-    canonical token stream of A" and the token-level parse-back for those node kinds.
-  * `print_block_roundtrip`: `useBlock s → decodeStringLiteral (printString s) = some (blockStringValue s)`
-    (the block form lexes back to ONE token whose raw value is `s`), and its indentation-stable version
-    (the writer indents the continuation lines of a block string by the current indentation).
+  * `print_tokens` for type-system definitions, and the token-level parse-back for selections / operations /
+    fragments / type-system definitions (parse-back is proved for Type, Value and Directive — the leaves every
+    definition is built from; token streams are proved for all executable definitions).
+  * the indentation-stable version of `print_block_lexes` (the writer indents the continuation lines of a block
+    string by the current indentation; `BlockStringValue` removes it again when some continuation line is not blank).
   * the composition `parse (cook (serverModule …)) = stripDirective … d` over a parser model (C07's PEG model):
     O evaluates it on the real parser for generated schemas; K ties every model in this file to the code.
-  * `jsLiteral ops = "`\n" ++ jsStringBody (justText ops) ++ "`"` when no written chunk ends in `$`
-    (the writer's dollar flag is per chunk); K compares both writers' outputs on every generated document.
 -/
 
 end NitroVerif.C16
